@@ -212,13 +212,48 @@ func panicClass(e any) string {
 	case strings.Contains(s, "Uint64() out of bound"):
 		return "uint64"
 	}
-	if len(s) > 60 {
-		s = s[:60]
+	return "other:" + ascii(s)
+}
+
+func ascii(s string) string {
+	var sb strings.Builder
+	for _, c := range s {
+		if c > 32 && c < 127 && c != ';' && c != '=' {
+			sb.WriteRune(c)
+		} else {
+			sb.WriteByte('_')
+		}
+		if sb.Len() >= 60 {
+			break
+		}
 	}
-	return "other:" + strings.ReplaceAll(s, " ", "_")
+	return sb.String()
 }
 
 var errTable = [][2]string{
+	{"pubKey does not match signer address", "ante:signature"},
+	{"bitmap: buffer length", "bitmap-length"},
+	{"nil pointer dereference", "nil-vote"},
+	{"decoding bech32 failed", "ante:signers"},
+	{"is not current relayer proposer", "ante:not-proposer"},
+	{"is not a relayer message", "ante:not-relayer-msg"},
+	{"no memo required", "ante:memo"},
+	{"MsgNewEthBlock timeout height should be", "ante:ethblock-timeout"},
+	{"timeout height", "ante:timeout"},
+	{"signer count more than 1", "ante:signers"},
+	{"signature verification failed", "ante:signature"},
+	{"account sequence mismatch", "ante:sequence"},
+	{"does not exist", "ante:signature"},
+	{"dequeue mismatched", "dequeue-mismatch"},
+	{"consensus proposer mismatched", "proposer"},
+	{"incorrect parent block", "parent"},
+	{"invalid beacon root", "beacon-root"},
+	{"blob tx is not allowed", "blob"},
+	{"invalid execution requests", "requests-decode"},
+	{"empty payload", "nil-payload"},
+	{"invalid from NewPayloadV4", "engine-invalid"},
+	{"invalid from ForkchoiceUpdatedV3", "engine-invalid"},
+	{"engine down", "engine-error"},
 	{"relayer pubkey not found", "key-not-found"},
 	{"txid not found", "txid-not-found"},
 	{"not current proposer", "not-proposer"},
@@ -296,8 +331,5 @@ func Classify(err error) string {
 			return e[1]
 		}
 	}
-	if len(s) > 60 {
-		s = s[:60]
-	}
-	return "other:" + strings.ReplaceAll(s, " ", "_")
+	return "other:" + ascii(s)
 }
